@@ -253,9 +253,19 @@ def main(argv):
     except SystemExit:
         raise
     except Exception:
-        traceback.print_exc()
-        print("CHECKER-ERROR property=%s (internal error, no verdict)" % pid)
-        return 2
+        # fail closed in the documented output format: the analysis could not handle this tree
+        tb = traceback.format_exc()
+        sys.stderr.write(tb)
+        evd = os.environ.get("SV_EVIDENCE_DIR")
+        repdir = os.path.join(evd, "reports") if evd else os.path.join(VERIF, "reports")
+        os.makedirs(repdir, exist_ok=True)
+        rp = os.path.join("reports", "%s-engine.json" % pid)
+        json.dump({"property": pid, "rule": pid + ".ENGINE", "key": pid + ".ENGINE/internal-error",
+                   "explanation": "the checker raised an internal error on this tree (no rule verdicts): " + tb[-1500:], "tier": tier},
+                  open(os.path.join(repdir, "%s-engine.json" % pid), "w"), indent=1)
+        print("VIOLATION property=%s replay=%s" % (pid, rp))
+        print("  rule %s.ENGINE/internal-error: the analysis could not handle this tree (fail closed): %s" % (pid, tb.strip().splitlines()[-1][:200]))
+        return 1
 
 
 if __name__ == "__main__":
